@@ -26,6 +26,35 @@ ASSUMPTIONS = ["rod attributes live on the rod object: a load referring to rod d
 BLIND_SPOTS = ["wrong sign or factor of an energy or force term"]
 
 
+def energy_force_pairing(ctx):
+    """System.E_pot sums every contribution with a callable E_pot.  If a base class defines E_pot AND h (the energy of that force), a
+    subclass that replaces h but keeps the inherited E_pot reports the energy of a force it no longer exerts (e.g. a follower force
+    inheriting the dead load's potential)."""
+    rep = ctx.rep
+    model = ctx.model
+    n = 0
+    for ci in model.all_classes():
+        if not ci.rel.startswith("cardillo/") or ci.qual == "System":
+            continue
+        for v in model.variants(ci)[:1]:
+            view = protocol.ClassView(ctx, ci, v)
+            cE, fE = view.method("E_pot")
+            ch, fh = view.method("h")
+            if fE is None or fh is None or cE is None or ch is None:
+                continue
+            n += 1
+            C = f"{ci.rel}:{ci.qual}"
+            if cE is ch:
+                rep.ok("C07.R8", C, f"E_pot and h are both defined by {cE.qual}")
+            elif "h" in cE.methods:
+                rep.bad("C07.R8", C, fh.name, f"`{ci.qual}` takes `h` from {ch.qual} but `E_pot` from {cE.qual}, which defines its own `h`: the inherited energy is the potential of "
+                        f"{cE.qual}'s force, not of the force {ch.qual}.h exerts; System.E_pot and the element's power balance are wrong for this element", f"{ci.rel}:{fh.lineno}")
+            else:
+                rep.ok("C07.R8", C, f"E_pot from {cE.qual} (which defines no h of its own: template with element routines), h from {ch.qual}")
+    if n < 5:
+        raise AnalysisError(f"C07.R8: only {n} classes with both E_pot and h found")
+
+
 def run(ctx):
     rep = ctx.rep
     rep.rule("C07.R1", "E_pot dispatch totality", 5)
@@ -35,6 +64,8 @@ def run(ctx):
     rep.rule("C07.R6", "Revolute as scalar subsystem: angle l and rate l_dot / force direction W_l are oriented about the same axis (else power = +dE/dt)", 4)
     from .c25 import orientation_rule
     orientation_rule(ctx, "C07.R6")
+    rep.rule("C07.R8", "an energy is inherited only together with the force it belongs to: no class overrides h (or its element routine) while inheriting E_pot from a base that pairs E_pot with its own h", 5)
+    energy_force_pairing(ctx)
     rep.rule("C07.R7", "dependence monotonicity (K13): the generalized force of a conservative element reads no datum (quadrature rule, stiffness, reference) its energy does not read", 5)
     from .. import depmono
     for cname_, pairs_ in (("Force_line_distributed", [("E_pot_el", "h_el")]), ("Force", [("E_pot", "h")]), ("Spring", [("_E_pot", "_la_c")]),
@@ -208,6 +239,8 @@ MUTANTS += [
          new="        self.v_P2 = lambda t, q, u: self.subsystem2.v_P(\n            t, q[self._nq1 :], u[self._nu1 :], self.xi2\n        )", expect="C07.R5"),
 ]
 MUTANTS += [
+    dict(id="c07-r8-seed", canary=True, what="[seeded by sub-agent] B_Force derives from Force and inherits the dead load's potential energy", file="cardillo/forces/force.py",
+         old="class B_Force:\n", new="class B_Force(Force):\n", expect="C07.R8"),
     dict(id="c07-r7-seed", canary=True, what="[seeded by sub-agent] Force_line_distributed.h_el integrates with the dynamics quadrature, E_pot_el with the static one", file="cardillo/rods/force_line_distributed.py",
          old="        he = np.zeros(self.rod.nu_element, dtype=float)\n\n        for i in range(self.rod.nquadrature):\n            # extract reference state variables\n            qpi = self.rod.qp[el, i]\n            qwi = self.rod.qw[el, i]\n            Ji = self.rod.J[el, i]",
          new="        he = np.zeros(self.rod.nu_element, dtype=float)\n\n        for i in range(self.rod.nquadrature_dyn):\n            # extract reference state variables\n            qpi = self.rod.qp_dyn[el, i]\n            qwi = self.rod.qw_dyn[el, i]\n            Ji = self.rod.J_dyn[el, i]", expect="C07.R7"),
